@@ -3,7 +3,6 @@ package rules
 import (
 	"bytes"
 	"fmt"
-	"reflect"
 
 	"github.com/vektah/gqlparser/v2/ast"
 
@@ -153,6 +152,10 @@ type sequentialFieldsMap struct {
 	// We can't use map[string][]*ast.Field. because map is not stable...
 	seq  []string
 	data map[string][]*ast.Field
+
+	// the first selection of the selection set these fields were collected from: it identifies
+	// that selection set (nil for an empty selection set, which has no fields to compare)
+	first ast.Selection
 }
 
 type fieldIterateEntry struct {
@@ -240,12 +243,16 @@ type overlappingFieldsCanBeMergedManager struct {
 	comparedFragmentPairs pairSet
 	// cachedFieldsAndFragmentNames interface{}
 
-	// pairs of fields whose sub selection sets are being compared further up the call stack
-	comparingFields map[fieldPair]bool
+	// per findConflictsWithinSelectionSet: the (fields of a selection set, fragment) comparisons
+	// already made or under way. Together with comparedFragmentPairs this is what bounds the
+	// work: every cycle of the recursion below goes through a fields-and-fragment or a
+	// fragment-and-fragment comparison, and each of those is expanded at most once.
+	comparedFieldsAndFragmentPairs map[fieldsAndFragmentPair]bool
 }
 
-type fieldPair struct {
-	fieldA, fieldB       *ast.Field
+type fieldsAndFragmentPair struct {
+	selectionSet         ast.Selection // sequentialFieldsMap.first
+	fragmentName         string
 	areMutuallyExclusive bool
 }
 
@@ -253,6 +260,11 @@ func (m *overlappingFieldsCanBeMergedManager) findConflictsWithinSelectionSet(se
 	if len(selectionSet) == 0 {
 		return nil
 	}
+
+	// The memo of fields-and-fragment comparisons lives for one top-level comparison only: the
+	// walker links fields to their definitions as it goes, so a comparison made on behalf of an
+	// earlier selection set may have looked at fields that were not linked yet.
+	m.comparedFieldsAndFragmentPairs = make(map[fieldsAndFragmentPair]bool)
 
 	fieldsMap, fragmentSpreads := getFieldsAndFragmentNames(selectionSet)
 
@@ -262,13 +274,10 @@ func (m *overlappingFieldsCanBeMergedManager) findConflictsWithinSelectionSet(se
 	// Note: this is the *only place* `collectConflictsWithin` is called.
 	m.collectConflictsWithin(&conflicts, fieldsMap)
 
-	// the fragments already compared with this selection set's fields: local to this
-	// comparison, so that a comparison nested inside it cannot make it forget them
-	comparedFragments := make(map[string]bool)
 	for idx, fragmentSpreadA := range fragmentSpreads {
 		// (B) Then collect conflicts between these fieldMap and those represented by
 		// each spread fragment name found.
-		m.collectConflictsBetweenFieldsAndFragment(&conflicts, comparedFragments, false, fieldsMap, fragmentSpreadA)
+		m.collectConflictsBetweenFieldsAndFragment(&conflicts, false, fieldsMap, fragmentSpreadA)
 
 		for _, fragmentSpreadB := range fragmentSpreads[idx+1:] {
 			// (C) Then compare this fragment with all other fragments found in this
@@ -282,11 +291,14 @@ func (m *overlappingFieldsCanBeMergedManager) findConflictsWithinSelectionSet(se
 	return conflicts.Conflicts
 }
 
-func (m *overlappingFieldsCanBeMergedManager) collectConflictsBetweenFieldsAndFragment(conflicts *conflictMessageContainer, comparedFragments map[string]bool, areMutuallyExclusive bool, fieldsMap *sequentialFieldsMap, fragmentSpread *ast.FragmentSpread) {
-	if comparedFragments[fragmentSpread.Name] {
+func (m *overlappingFieldsCanBeMergedManager) collectConflictsBetweenFieldsAndFragment(conflicts *conflictMessageContainer, areMutuallyExclusive bool, fieldsMap *sequentialFieldsMap, fragmentSpread *ast.FragmentSpread) {
+	// Memoize so the fields of one selection set and a fragment are not compared again for
+	// every pair of fields (or every fragment) that leads here.
+	pair := fieldsAndFragmentPair{fieldsMap.first, fragmentSpread.Name, areMutuallyExclusive}
+	if m.comparedFieldsAndFragmentPairs[pair] {
 		return
 	}
-	comparedFragments[fragmentSpread.Name] = true
+	m.comparedFieldsAndFragmentPairs[pair] = true
 
 	if fragmentSpread.Definition == nil {
 		return
@@ -295,7 +307,7 @@ func (m *overlappingFieldsCanBeMergedManager) collectConflictsBetweenFieldsAndFr
 	fieldsMapB, fragmentSpreads := getFieldsAndFragmentNames(fragmentSpread.Definition.SelectionSet)
 
 	// Do not compare a fragment's fieldMap to itself.
-	if reflect.DeepEqual(fieldsMap, fieldsMapB) {
+	if fieldsMap.first == fieldsMapB.first {
 		return
 	}
 
@@ -310,7 +322,7 @@ func (m *overlappingFieldsCanBeMergedManager) collectConflictsBetweenFieldsAndFr
 		if fragmentSpread.Name == baseFragmentSpread.Name {
 			continue
 		}
-		m.collectConflictsBetweenFieldsAndFragment(conflicts, comparedFragments, areMutuallyExclusive, fieldsMap, fragmentSpread)
+		m.collectConflictsBetweenFieldsAndFragment(conflicts, areMutuallyExclusive, fieldsMap, fragmentSpread)
 	}
 }
 
@@ -367,13 +379,13 @@ func (m *overlappingFieldsCanBeMergedManager) findConflictsBetweenSubSelectionSe
 	// (I) Then collect conflicts between the first collection of fields and
 	// those referenced by each fragment name associated with the second.
 	for _, fragmentSpread := range fragmentSpreadsB {
-		m.collectConflictsBetweenFieldsAndFragment(&conflicts, make(map[string]bool), areMutuallyExclusive, fieldsMapA, fragmentSpread)
+		m.collectConflictsBetweenFieldsAndFragment(&conflicts, areMutuallyExclusive, fieldsMapA, fragmentSpread)
 	}
 
 	// (I) Then collect conflicts between the second collection of fields and
 	// those referenced by each fragment name associated with the first.
 	for _, fragmentSpread := range fragmentSpreadsA {
-		m.collectConflictsBetweenFieldsAndFragment(&conflicts, make(map[string]bool), areMutuallyExclusive, fieldsMapB, fragmentSpread)
+		m.collectConflictsBetweenFieldsAndFragment(&conflicts, areMutuallyExclusive, fieldsMapB, fragmentSpread)
 	}
 
 	// (J) Also collect conflicts between any fragment names by the first and
@@ -468,18 +480,6 @@ func (m *overlappingFieldsCanBeMergedManager) findConflict(parentFieldsAreMutual
 			Position:     fieldB.Position,
 		}
 	}
-
-	// Fragments that reach themselves through a field can lead back to the very pair of
-	// fields being compared: that comparison is already under way and adds nothing.
-	pair := fieldPair{fieldA, fieldB, areMutuallyExclusive}
-	if m.comparingFields[pair] {
-		return nil
-	}
-	if m.comparingFields == nil {
-		m.comparingFields = make(map[fieldPair]bool)
-	}
-	m.comparingFields[pair] = true
-	defer delete(m.comparingFields, pair)
 
 	// Collect and compare sub-fields. Use the same "visited fragment names" list
 	// for both collections so fields in a fragment reference are never
@@ -578,6 +578,9 @@ func doTypesConflict(walker *Walker, type1 *ast.Type, type2 *ast.Type) bool {
 func getFieldsAndFragmentNames(selectionSet ast.SelectionSet) (*sequentialFieldsMap, []*ast.FragmentSpread) {
 	fieldsMap := sequentialFieldsMap{
 		data: make(map[string][]*ast.Field),
+	}
+	if len(selectionSet) > 0 {
+		fieldsMap.first = selectionSet[0]
 	}
 	var fragmentSpreads []*ast.FragmentSpread
 
